@@ -136,6 +136,50 @@ def rule_r5(chk, db, model):
     chk.floor("R5", len(lst), 15, "sub-resource entries")
 
 
+def _none_although_found(db, sel):
+    """the selector can answer None in a state where it has found an entry with the requested name (a name-equality test succeeded): it
+    treats a repeated name like an absent one"""
+    from .. import guards
+    hits = []
+    for x in db.nested(sel):
+        for w in flow.return_writes(x):
+            if w["kind"] != "None":
+                continue
+            for f in guards.dominating_facts(x, w["bi"]):
+                if f[0] == "call" and f[1].endswith("PartialEq::eq") and f[2] is True:
+                    hits.append(x.loc(w["bi"]))
+                elif f[0] == "cmp" and f[1] == "Eq" and f[2] is True:
+                    hits.append(x.loc(w["bi"]))
+    return hits
+
+
+def rule_r7(chk, db):
+    """every occurrence of a signed sub-resource is bound by the signature: the router's presence test (`has`) is true for a name that occurs
+    twice, so the canonicalised resource must not take such a name for absent"""
+    b = db.body(sigcore.BUILDERS_V2[0]) if sigcore.BUILDERS_V2 else None
+    cands = [db.body(n) for n in sigcore.BUILDERS_V2 if db.body(n) is not None and short(n) == "create_string_to_sign"]
+    if not cands:
+        raise AnchorMissing("V2 create_string_to_sign not found")
+    b = inline.inlined(db, cands[0])
+    n = 0
+    for bi, t in b.calls():
+        d = callee_def(t)
+        if "ordered_qs::OrderedQs::" not in d or len(t["args"]) < 2:
+            continue
+        sl = flow.backward(b, t["args"][1], at=bi)
+        from_table = any(c.get("c") == "item" and c.get("def", "").endswith("INCLUDED_QUERY") for c in sl.consts)
+        if not from_table:
+            continue
+        n += 1
+        sel = db.body(d)
+        bad = _none_although_found(db, sel) if sel is not None else ["(selector body not found)"]
+        chk.verdict(not bad, "R7", "every-occurrence-signed:%s" % short(d), b.loc(bi),
+                    "the sub-resources of the canonicalised resource are selected with %s, which answers None for a name that occurs more than once "
+                    "(%s): `?acl&acl` falls out of the string to sign while the router still sees `acl` - a request signed for GET /b/k is accepted as "
+                    "GetObjectAcl" % (short(d), ", ".join(bad[:2])))
+    chk.floor("R7", n, 1, "query selections by sub-resource name in the V2 string-to-sign builder")
+
+
 def run(chk, db, tier):
     model = load_model()
     vs = sigcore.run_common(chk, db, {"v2-header", "v2-presigned"}, sigcore.BUILDERS_V2)
@@ -163,6 +207,8 @@ def run(chk, db, tier):
     chk.guard("R4", rule_r4, db)
     chk.guard("R5", rule_r5, db, model)
     chk.guard("R6", sigwrites.rule_r6_v2, db)
+    chk.rule("R7", "every occurrence of a signed sub-resource is part of the string to sign (no selector that takes a repeated name for absent)")
+    chk.guard("R7", rule_r7, db)
 
 
 META = {
